@@ -294,7 +294,9 @@ def run_meta(desc):
             C2 = [torch.randn(o.shape, generator=tg, dtype=dtype) for o in outs0]
             g1, g2 = grad_for(C1), grad_for(C2)
             sc = max(1.0, max(float(x.abs().max()) for x in g1 + g2))
-            tol = 1e-6 if F.iterative else 1e-9
+            # adaptive integrators choose the steps of the backward (augmented) integration from the cotangent itself: linearity in the
+            # cotangent holds up to their tolerance (rtol=1e-8 here) only, as for the iterative solvers
+            tol = 1e-6 if (F.iterative or fname in ("solve_ivp:rk45", "solve_ivp:rk23")) else 1e-9
             # (a) linear combination
             g12 = grad_for([0.7 * a - 1.3 * b for a, b in zip(C1, C2)])
             err = max(float((x - (0.7 * a - 1.3 * b)).abs().max()) for x, a, b in zip(g12, g1, g2))
